@@ -945,6 +945,19 @@ fn sx_macro(m: &syn::Macro) -> String {
             }
         }
         "vec" if m.tokens.is_empty() => "(array)".into(),
+        // `vec![e1, e2, ..]`: the listed elements (the repeat form `vec![e; n]` stays unsupported)
+        "vec" => match m.parse_body_with(syn::punctuated::Punctuated::<syn::Expr, syn::Token![,]>::parse_terminated) {
+            Ok(es) => {
+                let mut o = String::from("(array");
+                for e in es.iter() {
+                    o.push(' ');
+                    o.push_str(&sx_expr(e));
+                }
+                o.push(')');
+                o
+            }
+            Err(_) => format!("(unsupported {})", q(&format!("macro {}", ts(m)))),
+        },
         // a code template: its tokens as text (the translator makes it a symbolic value holding the holes' values)
         "quote" | "parse_quote" => format!("(quote {})", q(&m.tokens.to_string())),
         // a diagnostic of the macro: recorded, not modelled as control flow (proc-macro-error collects it)
